@@ -29,6 +29,31 @@ for root, dirs, files in os.walk(W):
             if filecmp.cmp(cur, theirs, shallow=False): continue
             open("/tmp/m3.base", "wb").write(b)
             r = subprocess.run(["git", "merge-file", "-p", cur, "/tmp/m3.base", theirs], capture_output=True)
+            if r.returncode != 0 and (p.startswith("coq/theories/Properties/") or p in ("known_findings.txt", "DESIGN.md")):
+                # both sides appended blocks: keep both (ours first)
+                r = subprocess.run(["git", "merge-file", "-p", "--union", cur, "/tmp/m3.base", theirs], capture_output=True)
+                out.append(("UNION", p))
+                if not dry: open(cur, "wb").write(r.stdout)
+                continue
+            if r.returncode != 0 and p.startswith("tools/props.d/") and p.endswith(".json"):
+                import json
+                c, t, bb = json.load(open(cur)), json.load(open(theirs)), json.loads(b)
+                m = dict(c); notes = []
+                for k in sorted(set(c) | set(t)):
+                    cv, tv, bv = c.get(k), t.get(k), bb.get(k)
+                    if tv == bv or tv == cv: continue
+                    if cv == bv: m[k] = tv; continue
+                    if isinstance(cv, list) and isinstance(tv, list): m[k] = cv + [x for x in tv if x not in cv]; notes.append(k + ":list-union"); continue
+                    if isinstance(cv, str) and isinstance(tv, str) and isinstance(bv, str):
+                        pre = os.path.commonprefix([bv, tv])
+                        if tv.startswith(bv): m[k] = cv + tv[len(bv):]; notes.append(k + ":appended")
+                        elif cv.startswith(bv): m[k] = tv + cv[len(bv):]; notes.append(k + ":theirs+our-suffix")
+                        else: m[k] = tv + " [ALSO] " + cv[len(os.path.commonprefix([bv, cv])):]; notes.append(k + ":BOTH-REWRITTEN(check)")
+                        continue
+                    notes.append(k + ":kept-ours")
+                out.append(("JSON-MERGED " + ",".join(notes), p))
+                if not dry: json.dump(m, open(cur, "w"), indent=1)
+                continue
             if r.returncode == 0:
                 out.append(("MERGED", p))
                 if not dry: open(cur, "wb").write(r.stdout)
